@@ -669,6 +669,19 @@ theorem ofBits32_integer (m k : Nat) (hm1 : 2 ^ 23 ≤ m) (hm2 : m < 2 ^ 24) (hk
   rw [e1, pow2_spec]
   simp
 
+/-- comparing two ratios is comparing the exact cross products (denominators positive): what
+    `big.Rat.Cmp` does, and what a fixed-width shortcut must reproduce without wrapping — the
+    width-class ratio sweep of the harness puts both products on either side of 2^63 and 2^64 -/
+theorem lt_cross_mul (a c : Int) (b d : Nat) (hb : 0 < b) (hd : 0 < d) :
+    lt ((a : Rat) / b) ((c : Rat) / d) = decide (a * d < c * b) := by
+  unfold lt
+  have hb' : (0 : Rat) < (b : Rat) := by exact_mod_cast hb
+  have hd' : (0 : Rat) < (d : Rat) := by exact_mod_cast hd
+  have h : ((a : Rat) / b < (c : Rat) / d) ↔ (a * d < c * b) := by
+    rw [div_lt_div_iff₀ hb' hd']
+    exact_mod_cast Iff.rfl
+  simp only [h]
+
 /-! ## non-vacuity: concrete instances meeting the hypotheses above -/
 
 example : floorDiv 7 (-2) = .ok (-4, -1) := by decide +kernel
@@ -688,6 +701,7 @@ example : ofBits64 0x3FE0000000000000 = some (1 / 2) := by decide +kernel
 example : ofBits64 0x7FF0000000000000 = none := by decide +kernel
 example : ofBits32 0x5F000000 = some 9223372036854775808 := by decide +kernel
 example : ofBits32 0x3F800000 = some 1 := by decide +kernel
+example : lt (5 / 4294967291) (4294967295 / 7) = true ∧ Impl.mulFix 4294967295 4294967291 < 0 := by decide +kernel
 example : ofBits32 0x4B800000 = some 16777216 ∧ ofBits32 0x4B800001 = some 16777218 ∧ lt 16777216 16777217 = true ∧ lt 16777217 16777218 = true := by decide +kernel
 example : truncDiv (-7) 2 = .ok (-3, -1) ∧ roundDiv 5 (-2) = .ok (-2, 1) ∧ ceilDiv 7 (-2) = .ok (-3, 1) := by decide +kernel
 example : modR (-7) 2 = .ok 1 ∧ remR (-7) 2 = .ok (-1) ∧ modR (1/2) (1/3) = .ok (1/6) := by decide +kernel
